@@ -16,6 +16,11 @@ import sys
 import tempfile
 import threading
 
+HERE = os.path.dirname(os.path.dirname(os.path.abspath(__file__)))
+REPO = os.environ.get("DVC_DATA_REPO", "/repo")
+sys.path.insert(0, HERE)
+sys.path.insert(0, os.path.join(REPO, "src"))
+
 
 def main():
     logging.disable(logging.CRITICAL)
